@@ -19,7 +19,7 @@ exec(open(os.path.join(V, "tools", "checks_table.py")).read())
 NOT_YET = "check not built yet (work in progress; see DESIGN.md section 3)"
 m = {"version": 1, "setup_cmd": "./setup.sh",
      "hooks": {"guard": "go build -overlay (no build tag and no change to /repo: all instrumentation lives in /verif/goharness and is mapped into the tooling module with -overlay; a plain go build/go test never sees it)",
-               "enable": "lib/build.py: go build -overlay <scratch>/overlay.json -o <scratch>/bin/verifharness ./cmd/verifharness",
+               "enable": "lib/build.py: go build -overlay <scratch>/overlay.json -o <scratch>/bin/verifharness ./cmd/verifharness; checks/c20.py: go build -overlay <scratch>/c20ov/overlay.json -o <scratch>/bin/verifwatch ./cmd/verifwatch (instrumented copies of generatecommand.go, cache.go, configargs.go, iocommon are produced from the current sources at build time); gotools/maprange produces the C12 overlay the same way",
                "baseline_off_cmd": "cd /repo/tooling && GOFLAGS=-mod=mod GOPROXY=off go test -vet=off -count=1 ./...",
                "source_commits": [], "add_only": True},
      "engines": ENGINES,
